@@ -23,8 +23,8 @@ Cfgs ==
     [] CfgSet = "stack"  -> {C("stack", Lin, FALSE, l, 16, "grid") : l \in {None, 16}}     \* (StackTime refuses NoGrid data with several time entries)
     [] CfgSet = "spill"  -> {C(k, sg, TRUE, l, 8, "scalar") :
                                k \in {"next", "prev", "linear", "step", "avg", "sum"}, sg \in {<<1, 2>>}, l \in {0, 8, 20}}
-    [] CfgSet = "spillmasked" -> {C(k, <<1, 2>>, TRUE, l, 16, "masked") :
-                               k \in {"next", "linear", "avg"}, l \in {None, 0, 16, 40}}
+    [] CfgSet = "spillmasked" -> {C(k, <<1, 2>>, TRUE, l, 16, py) :
+                               k \in {"next", "linear", "avg"}, l \in {None, 0, 16, 40}, py \in {"masked", "maskedempty"}}
 
 Init == cfg \in Cfgs /\ st = St0 /\ lastq = None /\ hist = <<>>
 
